@@ -198,7 +198,7 @@ def cases(tier, rng, dist, focus=None):
     for _ in range(N // 3):
         n = rng.randint(1, 5)
         vals = [Fraction(rng.randint(-5, 5)) for _ in range(2 * n)]
-        kind = rng.choice(["add", "mul", "bad", "cube", "badmul", "add", "mul"])
+        kind = rng.choice(["add", "mul", "bad", "cube", "badmul", "add", "mul", "left_only", "right_only"])
         yield {"f": "pot", "x": [str(v) for v in vals[:n]], "y": [str(v) for v in vals[n:]], "kind": kind, "d": str(Fraction(rng.randint(-9, 9), rng.choice([1, 2])))}
     # the named statistics under a non-additive shift, many repetitions, outlying values: the hit count must come from
     # the named statistic in both keep_dist branches
@@ -233,11 +233,22 @@ def cases(tier, rng, dist, focus=None):
     # several hundred units (beyond any block size of 8, 32, 64, 256 bits): still every unit both ways
     for k, (fn, n) in enumerate([("one_sample", 300), ("one_sample", 515), ("two_sample", 301), ("k_sample", 259)][:(4 if tier == "thorough" else 2)]):
         yield {"f": "coverage", "fn": fn, "n": n + (0 if tier == "quick" else rng.randint(0, 7)), "reps": 64, "seed": rng.randint(0, 10**9), "rs": False}
-    # very many repetitions (beyond 2^16 and 2^17, not a multiple of either): keep_dist twins on the same seed, p recomputed from dist
-    for k, (fn, reps) in enumerate([("one_sample", 140001), ("two_sample", 140001), ("k_sample", 70001), ("shift", 70001)]):
+    # sizes just beyond every integer constant of the source (harness/sizes.py): a block size, buffer length or fast-path limit
+    # introduced into the code is a size at which the randomization must still reach every unit
+    from . import sizes
+    for k, n in enumerate([v for v in sizes.beyond(["core", "utils", "ksample"], cap=6000) if v >= 40][:8]):
+        yield {"f": "coverage", "fn": ["one_sample", "two_sample", "k_sample"][k % 3] if k >= 2 else "one_sample", "n": n, "reps": 64, "seed": rng.randint(0, 10**9), "rs": False}
+    # very many repetitions (beyond 2^16 and 2^17, not a multiple of either, and just beyond every integer constant of the source):
+    # keep_dist twins on the same seed, p recomputed from dist
+    many = [("one_sample", 140001), ("two_sample", 140001), ("k_sample", 70001), ("shift", 70001)]
+    for t in sizes.thresholds(["core", "utils", "ksample"], lo=16, hi=200000):
+        for fn, fixed in list(many[:4]):
+            if not (fixed > t and fixed % t):          # the fixed size is not beyond this constant, or is a multiple of it
+                many.append((fn, t + 3))
+    for k, (fn, reps) in enumerate(many[:20]):
         n = rng.randint(5, 7)
         yield {"f": "manyreps", "fn": fn, "x": [rng.randint(-3, 3) for _ in range(n)], "y": [rng.randint(-3, 3) for _ in range(n)],
-               "reps": reps if fn != "k_sample" else 70001, "alt": rng.choice(ALTS), "plus1": rng.random() < 0.5, "seed": rng.randint(0, 10**6), "rs": rng.random() < 0.3}
+               "reps": reps, "alt": rng.choice(ALTS), "plus1": rng.random() < 0.5, "seed": rng.randint(0, 10**6), "rs": rng.random() < 0.3}
     # real seeds: reproducibility, generator interchangeability, p-value assembly on named float statistics
     for _ in range(N // 2):
         nx, ny = rng.randint(2, 6), rng.randint(2, 6)
@@ -283,6 +294,15 @@ def real_shift(seed):
 
 def _power_pair(k):
     return (lambda u: u ** k, lambda u: u ** k)
+
+
+def _onesided_pair(which, k):
+    """pairs that are inverse in ONE direction only on 1..5: finverse(f(u)) = u but f(finverse(u)) != u ('left_only'), or the
+    converse ('right_only'); neither is a pair of mutually inverse maps"""
+    lefts = [(lambda u: u * 2.0, lambda u: np.floor(u / 2.0)), (lambda u: u + 0.5, lambda u: np.floor(u)), (lambda u: u * 3.0, lambda u: np.round(u / 3.0)),
+             (lambda u: u * 4.0 + 1.0, lambda u: np.floor(u / 4.0))]
+    f, g = lefts[k % len(lefts)]
+    return (f, g) if which == "left_only" else (g, f)
 
 
 def shift_arg(sh):
@@ -531,23 +551,26 @@ def run_coverage(c):
         def st(xx, gg, xbar):
             rec.append([int(v) for v in gg]); return 0.0
         r = guarded(lambda: ksample.k_sample(x, g, reps=c["reps"], stat=st, keep_dist=True, seed=seed))
-    return {"r": list(r)[:2] if r[0] != "ok" else ["ok"], "rec": rec}
+    rows = rec[-c["reps"]:]
+    okrows = [r_ for r_ in rows if len(r_) == n]
+    # compact record: per unit, in how many of the last [reps] evaluations it was flipped / on the second side / labelled 1
+    return {"r": list(r)[:2] if r[0] != "ok" else ["ok"], "nrows": len(rows), "badlen": len(rows) - len(okrows),
+            "ones": [sum(r_[i] for r_ in okrows) for i in range(n)], "first_rows": rows[:2] if n <= 80 else []}
 
 
 def oracle_coverage(c, o):
     if o["r"][0] != "ok":
         _v = emit({"why": f"{c['fn']} raised {o['r']}", "cls": f"{c['fn']}:raises"})
         if _v: return _v
-    rows = o["rec"][-c["reps"]:]
-    if len(rows) < c["reps"] or any(len(r) != c["n"] for r in rows):
-        _v = emit({"why": f"{c['fn']}: the statistic was evaluated on {len(rows)} rearrangements of {c['n']} units, expected {c['reps']}", "cls": f"{c['fn']}:call-count"})
+    if o["nrows"] < c["reps"] or o["badlen"]:
+        _v = emit({"why": f"{c['fn']}: the statistic was evaluated on {o['nrows']} rearrangements ({o['badlen']} of them not of {c['n']} units), expected {c['reps']}", "cls": f"{c['fn']}:call-count"})
         if _v: return _v
+    nr = o["nrows"] - o["badlen"]
     what = {"one_sample": ("sign-flipped", "kept its sign"), "two_sample": ("allocated to the second sample", "allocated to the first sample"),
             "k_sample": ("given label 1", "given label 0")}[c["fn"]]
     for i in range(c["n"]):
-        col = [r[i] for r in rows]
-        if all(v == col[0] for v in col):
-            return {"why": f"{c['fn']} with {c['n']} units, {c['reps']} repetitions, seed {c['seed']}: unit {i} was {what[0] if col[0] else what[1]} in EVERY repetition "
+        if nr and o["ones"][i] in (0, nr):
+            return {"why": f"{c['fn']} with {c['n']} units, {c['reps']} repetitions, seed {c['seed']}: unit {i} was {what[0] if o['ones'][i] else what[1]} in EVERY repetition "
                            f"(probability about 2^-{c['reps'] - 1} if every {'sign assignment' if c['fn'] == 'one_sample' else 'allocation'} were equally likely)",
                     "cls": f"{c['fn']}:inadmissible"}
     return None
@@ -633,12 +656,13 @@ def pot_fns(c):
     if c["kind"] == "mul": return _scale_pair(2.0, 2.0)
     if c["kind"] == "cube": return _power_pair(3)
     if c["kind"] == "badmul": return _scale_pair(2.0, 4.0)
+    if c["kind"] in ("left_only", "right_only"): return _onesided_pair(c["kind"], int(abs(F(c["d"])) * 2))
     return _affine_pair(d, d, 1)
 
 
 def run_pot(c):
     x = arr([F(v) for v in c["x"]]); y = arr([F(v) for v in c["y"]])
-    if c["kind"] in ("bad", "badmul", "cube"):
+    if c["kind"] in ("bad", "badmul", "cube", "left_only", "right_only"):
         # a valid pair from the same factory first (self-contained replay of history-dependent guards)
         g, ginv = _affine_pair(1.0, 1.0, 0) if c["kind"] == "bad" else (_scale_pair(2.0, 2.0) if c["kind"] == "badmul" else _power_pair(1))
         guarded(lambda: utils.potential_outcomes(x.copy(), y.copy(), g, ginv))
@@ -897,7 +921,7 @@ def to_coq(c, o):
             return None
         return f"PermuteCase {qlist([F(v) for v in c['x']])} {tape_coq(o['log'])} {qlist([fl(v) for v in o['r'][1]])} {cnat(len(o['log']))}"
     if f == "pot":
-        if c["kind"] == "cube":
+        if c["kind"] in ("cube", "left_only", "right_only"):
             return None
         d = F(c["d"])
         fs = {"add": (f"(AddC {cq(d)})", f"(AddC {cq(-d)})"), "mul": ("(MulC (2#1)%Q)", "(MulC (1#2)%Q)"), "bad": (f"(AddC {cq(d)})", f"(AddC {cq(-d - 1)})"),
@@ -1234,6 +1258,8 @@ def oracle_pot(c, o):
         return None if (r[0] == "exc" and r[1] == "AssertionError") else {"why": f"potential_outcomes accepted a non-inverse pair: {r[:2]}", "cls": "potential_outcomes:inverse-guard"}
     if c["kind"] == "cube":
         return None if (r[0] == "exc" and r[1] == "AssertionError") else {"why": f"potential_outcomes accepted u^3 as its own inverse: {r[:2]}", "cls": "potential_outcomes:inverse-guard"}
+    if c["kind"] in ("left_only", "right_only"):
+        return None if (r[0] == "exc" and r[1] == "AssertionError") else {"why": f"potential_outcomes accepted a pair that is inverse in one direction only ({c['kind']}, variant {int(abs(F(c['d'])) * 2) % 4}: e.g. u -> 2u with u -> floor(u/2)): {r[:2]}", "cls": "potential_outcomes:inverse-guard"}
     if r[0] != "ok":
         _v = emit({"why": f"potential_outcomes raised {r}", "cls": "potential_outcomes:raises"})
         if _v: return _v
